@@ -2073,6 +2073,10 @@ def evalf(r, env, _memo=None):
                     v = complex(int(re[0]))
                 elif n == 'nearest':
                     v = complex(round(re[0]))
+                elif n == 'floor':
+                    v = complex(math.floor(re[0]))
+                elif n == 'ceil':
+                    v = complex(math.ceil(re[0]))
                 elif n == 'rnd':
                     v = complex(round(re[0], int(round(re[1]))))
                 elif n == 'floordiv':
@@ -2125,7 +2129,7 @@ def _shared_opaque(a, b):
     """ids of opaque generators (call atoms, items of call results, decoded bytes, ...) that occur in BOTH forms: for a witness they can
     take any value, the same on both sides"""
     known = {'def', 'sqrt', 'atan', 'atan2', 'asin', 'acos', 'log', 'abs', 'exp', 'pow', 'int', 'nearest', 'rnd', 'floordiv', 'mod', 'lt', 'le', 'gt', 'ge', 'eq', 'ne',
-             'and', 'or', 'not', 'truthy', 'ite'}
+             'and', 'or', 'not', 'truthy', 'ite', 'floor', 'ceil'}
 
     def collect(r):
         out = set()
